@@ -94,6 +94,8 @@ type PD struct {
 	SkB1      int
 	CiSk      int
 	LtA       int
+	LtA2      int
+	MpA2      int
 	MpA       int
 	CvA       int
 	LtB       int
@@ -117,11 +119,16 @@ func c09Setup(o *optCase, methods []string, bFirst bool) string {
 	var a, b strings.Builder
 	if has["A1"] || has["A2"] {
 		a.WriteString(c09Lines("", o.Notes["A"]))
+		// list-valued notations have no meaning on an interface and are passed over there: three of a kind (a slice
+		// with spare capacity, should they ever be kept) must not connect the methods' own lists with each other
+		a.WriteString("// :skip ZzNone1\n// :skip ZzNone2\n// :skip ZzNone3\n")
+		a.WriteString("// :literal ZzNone1 1\n// :literal ZzNone2 2\n// :literal ZzNone3 3\n// :map Plain ZzNone1\n// :map Plain ZzNone2\n// :map Plain ZzNone3\n")
 		a.WriteString("type Convergen interface {\n")
 		for _, m := range []string{"A1", "A2"} {
 			if has[m] {
 				// a skip pattern that matches its field under case folding only, ABOVE the method's own toggles:
 				// the case rule that ends up in force decides, wherever the :skip line stands
+				fmt.Fprintf(&a, "\t// :skip Sk%s\n", m)
 				a.WriteString("\t// :skip cisk\n")
 				a.WriteString(c09Lines("\t", o.Notes[m]))
 				if m == "A1" {
@@ -132,8 +139,10 @@ func c09Setup(o *optCase, methods []string, bFirst bool) string {
 				}
 				if m == "A2" {
 					a.WriteString("\t// :skip Nst2.X\n")
+					// exactly one literal and one map of its own, like A1
+					a.WriteString("\t// :literal LtA2 7\n\t// :map Plain MpA2\n")
 				}
-				fmt.Fprintf(&a, "\t// :skip Sk%s\n\t%s(*PS) *PD\n", m, m)
+				fmt.Fprintf(&a, "\t%s(*PS) *PD\n", m)
 			}
 		}
 		a.WriteString("}\n\n")
@@ -141,10 +150,11 @@ func c09Setup(o *optCase, methods []string, bFirst bool) string {
 	if has["B1"] {
 		b.WriteString("// :convergen\n")
 		b.WriteString(c09Lines("", o.Notes["B"]))
+		b.WriteString("// :skip ZzNone1\n// :skip ZzNone2\n// :skip ZzNone3\n")
 		b.WriteString("type B interface {\n")
-		b.WriteString("\t// :skip cisk\n")
+		b.WriteString("\t// :skip SkB1\n\t// :skip cisk\n")
 		b.WriteString(c09Lines("\t", o.Notes["B1"]))
-		b.WriteString("\t// :literal LtB 5\n\t// :skip SkB1\n\tB1(*PS) *PD\n}\n\n")
+		b.WriteString("\t// :literal LtB 5\n\tB1(*PS) *PD\n}\n\n")
 	}
 	head := "//go:build convergen\n\npackage p\n\n"
 	if bFirst {
@@ -234,7 +244,7 @@ func c09Observe(fn *project.Func, method string, want map[string]string) (diffs 
 		}
 	}
 	// list-valued and hook notations belong to the method that carries them
-	own := map[string]string{"LtA": "A1", "MpA": "A1", "CvA": "A1", "LtB": "B1"}
+	own := map[string]string{"LtA": "A1", "MpA": "A1", "CvA": "A1", "LtB": "B1", "LtA2": "A2", "MpA2": "A2"}
 	for f, m := range own {
 		o, _ := kind("DST." + f)
 		if m != method && o.K != "nomatch" {
